@@ -1,17 +1,16 @@
 """Property table: which rules decide which clauses of which property."""
 from __future__ import annotations
 
-from .rules import mirror, tables
+from functools import partial
 
-TRUSTED = ["CPython ast parser", "the normaliser / guard evaluator of vt/", "frozen reference tables under /verif/ref and in vt/rules",
+from .rules import mirror, tables, keylog, checksum, pcapng, pkn, cli, state, meta, tcp
+
+TRUSTED = ["CPython ast parser", "the CFG / dataflow / normaliser / guard evaluator of vt/",
+           "frozen reference tables under /verif/ref and in vt/rules (IANA registry copy, RFC layouts, labels)",
            "library behaviour of cryptography, scapy, dpkt, argparse"]
 
 
 def _level_other(results, violations, known):
-    return "other"
-
-
-def _level_prooflike(results, violations, known):
     return "other"
 
 
@@ -23,6 +22,59 @@ def prop(id, rules, explanation, assumptions, controls=(), level=_level_other):
                  "controls": list(controls), "level": level}
 
 
+def B1_for(*mods):
+    return partial(mirror.rule_B1, modules=list(mods))
+
+
+def B2_for(*mods):
+    return partial(mirror.rule_B2, pairs=list(mods))
+
+
+prop("C05",
+     lambda tier: [tcp.rule_A9, tcp.rule_A6a, tcp.rule_framing, tcp.rule_tls_causality, B2_for("session"), B1_for("session"),
+                   tcp.rule_D9_seq, tcp.rule_expected_seq],
+     "Decides the structural necessary conditions of segmentation-independence: per-direction duplicate suppression pairing (A9), empty segments "
+     "never reach the dedupe (A6a), framing loops make progress and release records only when whole (loop-replay lemma), record slice and buffer "
+     "clearing (FR), single in-order pass (CAUS), server/client twins are mirror images (B1/B2), sequence arithmetic modular (D9s) and "
+     "expected-sequence state (XSEQ). Does not decide equality of exported streams over all cut-point sets / permutations.",
+     ["dpkt delivers tcp.seq / tcp.data as parsed"], controls=["c05-dedupe-wrong-list"])
+
+prop("C09",
+     lambda tier: [keylog.rule_E2_grammar, keylog.rule_E2_pipeline, keylog.rule_E2_cli, keylog.rule_D7, pcapng.rule_T9_pcapng],
+     "Decides: the key-log line pattern (parsed with re._parser) admits both hex cases and every label literal the consumers compare against, rejects "
+     "comments/blank lines (E2a); CR is removed before splitting, file and DSB secrets share one parser and one Key construction site, DSB payloads are "
+     "ingested under ts == -1 before any dispatch, the TLS secret lookup is reachable only from finalisation (E2b); -s defaults to None (E2c); secrets are "
+     "selected by client-random equality on normalised case (D7); DSB block layout / marker agreement (T9p). Does not decide byte identity across delivery variants.",
+     ["dpkt's block classes parse option lists correctly"], controls=["c09-label-too-long"])
+
+prop("C10",
+     lambda tier: [cli.rule_D4, cli.rule_A6c, mirror.rule_B3_bind],
+     "Decides that configuration reaches every site: option table, int conversions, -m ⇒ keep_original_ports False, every server-port rewrite in both "
+     "builders is control-dependent on that flag and the flag's provenance at every construction site is args.keep_original_ports, mapped/default port "
+     "choice, client port never written (D4); Session creation dominated by the server-port membership test (A6c); the side whose port is a server port "
+     "becomes the server (B3b).", ["argparse semantics"], controls=["c10-rewrite-unconditional"])
+
+prop("C11",
+     lambda tier: [checksum.rule_fold_bound, checksum.rule_pseudo_header, checksum.rule_A3_packet, checksum.rule_A6b, B2_for("checksums")],
+     "Decides: fold loop exits only with a 16-bit value and folds with >>16/&0xFFFF (FOLD); pseudo-header field order/widths for IPv4/IPv6 and "
+     "checksum-field offsets TCP 16:18 / UDP 6:8 (T9c); every Packet attribute a routine reads exists in all Packet variants its call-site guard admits "
+     "(A3); dispatch dominated by the verdict, verdict True without -c (A6b); TCP/UDP twins mirror (B2). Does not decide the arithmetic identity itself "
+     "nor the UDP 0x0000/0xFFFF special case.", ["dpkt exposes ip.p / ip.nxt / tcp.sum / udp.sum as parsed"], controls=["c11-fold-off-by-one"])
+
+prop("C12",
+     lambda tier: [pcapng.rule_E3, pcapng.rule_T9_pcapng],
+     "Decides: every byte-order-dependent choice in the pcapng reader is `XLE if le else X` / '<'+f / '>'+f with the same X / f, the flag is set from the "
+     "matching magic, block type ↔ block class agreement (E3); if_tsresol decoding constants, identical EPB/PB timestamp expression, unconditional block "
+     "consumption before type dispatch (unknown blocks skipped), reader selection by -l (T9p). Does not decide dpkt's own classes.",
+     ["dpkt.pcapng / dpkt.pcap block classes"], controls=["c12-swap-le-class"])
+
+prop("C13",
+     lambda tier: [meta.rule_D5],
+     "Decides the effect set of the metadata switch: every statement control-dependent on it (post-dominator based edge dominance) only appends to the output "
+     "channel (TLS) or selects CRYPTO/VN bytes (QUIC); application-record handlers, alert/handshake handling and the STREAM selection are not control-dependent "
+     "on it; metadata records are appended verbatim; the switch's provenance is args.metadata.", ["none beyond the trusted base"],
+     controls=["c13-stream-under-meta"])
+
 prop("C14",
      lambda tier: [tables.rule_T1, tables.rule_T2, tables.rule_T3_classes],
      "Static decision of the suite table: (T1) each of the code-point rows of the dict literal equals the IANA row of an independent "
@@ -30,7 +82,21 @@ prop("C14",
      "MAC default) and every table name is resolved under exactly those semantics from the ordered literal sub-tables and compared "
      "with an independent grammar-based name parser (bulk class, AEAD flag, key length, MAC/PRF hash, tag length); code points outside "
      "the table are rejected because the lookup is an exact-key subscript whose miss path returns None and the caller returns on None; "
-     "(T3) every bulk class the table produces has a decryptor class, a block size and an implicit-IV length. "
+     "(T3a) every bulk class the table produces has a decryptor class and a block size. "
      "Decides all 65 536 code points given the stated loop semantics; does not execute the resolver.",
      ["the registry copy (scapy + openssl + RFC rows) and the checker's name grammar are correct"],
      controls=["c14-sha-before-sha256"])
+
+prop("C16",
+     lambda tier: [pkn.rule_E1, pkn.rule_D9_pkn, pkn.rule_pn_spaces, B1_for("quic.quic_session")],
+     "Decides that get_full_packet_number *is* RFC 9000 A.3: the function is reduced by forward substitution to a decision tree over (largest, truncated, "
+     "encoded length) and compared, in a linear/bitwise normal form, with the appendix (E1); integer-exact arithmetic (D9); per-direction tables, "
+     "0-RTT/1-RTT share a space (PNS); direction arms mirror (B1). Does not decide histories (largest is updated before authentication).",
+     ["the normaliser's rewrite rules (commutativity, x<<k = x*2^k, 2^e//2 = 2^(e-1))"], controls=["c16-le-to-lt"])
+
+prop("C18",
+     lambda tier: [state.rule_D6_reinit, state.rule_D6_nondet, state.rule_D6_paths, state.rule_D6_ownership],
+     "Decides the absence of nondeterminism sources in the code reachable from run(): no hash/id/random/time/env/cwd calls, no order-sensitive iteration "
+     "over sets (D6b), no cwd-relative implicit input (D6c), every module-level mutable object run() mutates is re-initialised by run() before use (D6r), "
+     "no shared mutable class/module state in flow classes (D6a). Does not decide determinism of scapy/dpkt/cryptography internals.",
+     ["scapy uses fixed IP id / no timestamps; dpkt's writer adds no host or time options"], controls=["c18-time-call"])
